@@ -179,6 +179,7 @@ MUTANTS = [
     ('vecmap', VECMAP, '        let ((key, value), hash) = self.buckets.remove(index);', '        let ((key, value), hash) = self.buckets.remove(0);', 'C11.vecmap.remove'),
     ('vecmap', VECMAP, '        let ((key, value), hash) = self.buckets.pop()?;\n        Some((Hashed::new_unchecked(hash, key), value))', '        let ((key, value), hash) = self.buckets.remove(0);\n        Some((Hashed::new_unchecked(hash, key), value))', 'pop'),
     ('vecmap', VECMAP, '        self.buckets.push((key.into_key(), value), hash);', '        self.buckets.push((key.into_key(), value), StarlarkHashValue(0));', 'C11.vecmap.insert_appends'),
+    ('limits', EVALRS, '        let res = self.with_call_stack(Value::new_none(), None, |this| {\n            function.invoke(&params, this)\n        });', '        self.call_stack.push(Value::new_none(), None)?;\n        let res = function.invoke(&params, self);\n        if res.is_ok() {\n            self.call_stack.pop();\n        }', 'eval_function'),
     ('calls', INSTR, '        eval.with_call_stack(self.to_value(), Some(location), |eval| {\n            self.invoke(args, eval)\n        })', '        self.invoke(args, eval)', 'bc_invoke'),
     ('calls', 'starlark/src/values/layout/value.rs', '        eval.with_call_stack(self, location, |eval| {\n            self.get_ref_full().invoke(args, eval)\n        })', '        self.get_ref_full().invoke(args, eval)', 'invoke_with_loc'),
     ('strindex', STRT, 'let ind = CharIndex(i.unsigned_abs() as usize);', 'let ind = CharIndex((-i) as usize);', 'at'),
